@@ -842,15 +842,16 @@ impl<'a> GeneratorState<'a> {
         }
     }
 
-    pub(crate) fn generate_bnot(&mut self, expr: &Expr, pos: usize) -> Result<ExprType, Error>
+    pub(crate) fn generate_bnot(&mut self, expr: &Expr, pos: usize, high_byte: bool) -> Result<ExprType, Error>
     {
         match expr {
             Expr::Integer(i) => Ok(ExprType::Immediate(!*i)),
             _ => { 
-                let left = self.generate_expr(expr, pos, false, false)?;
+                // The byte asked for is the complement of the same byte of the operand
+                let left = self.generate_expr(expr, pos, high_byte, high_byte)?;
                 // All bits are complemented, in the high byte of a 16 bits value too
                 let right = ExprType::Immediate(-1);
-                self.generate_arithm(&left, &Operation::Xor(false), &right, pos, false)
+                self.generate_arithm(&left, &Operation::Xor(false), &right, pos, high_byte)
             },
         }
     }
